@@ -26,7 +26,8 @@ template <typename TScalar>
 py::object pfaffian_np(
     py::array_t<TScalar, py::array::c_style> matrix)
 {
-    Matrix<TScalar> native_matrix = numpy_to_matrix(matrix);
+    // NOTE: `pfaffian_cpp` works in place, so the caller's array must be copied.
+    Matrix<TScalar> native_matrix = numpy_to_matrix(matrix).copy();
 
     TScalar result = pfaffian_cpp(native_matrix);
 
